@@ -190,7 +190,15 @@ def statistics(out: Outcome, rng, n: int) -> None:
         xs = [unit * rng.choice([rng.gauss(0, 1), float(rng.randint(0, 1)), 0.0, rng.uniform(-1e3, 1e3)]) for _ in range(rng.randint(1, 80))]
         sc = max([abs(v) for v in xs]) or 1.0
         m, a = Mean(), rng.choice([0.0, 0.05, 0.3, 1.0, rng.random()])
-        e, size = EWMA(alpha=a), rng.choice([1, 2, 3, 7])
+        try:
+            e = EWMA(alpha=a)
+        except ValueError:
+            # the ends of [0, 1] are degenerate weights (0: the statistic never moves, 1: it is the last value); a constructor that rejects one with ValueError narrows a domain
+            # no clause of this property fixes - the case is run with an interior weight
+            out.count("ewma_weight_rejected_by_the_constructor")
+            a = 0.5
+            e = EWMA(alpha=a)
+        size = rng.choice([1, 2, 3, 7])
         c, pa = CircularMean(size=size), rng.choice([1.0, 0.999, 0.9, 0.5, 0.01])
         p = PrequentialError(alpha=pa)
         lines += ["x mn", f"x en {f2h(a)}", f"x cn {size}", f"x pn {f2h(pa)}"]
